@@ -954,7 +954,7 @@ pub fn gen_enum(rng: &mut Rng, class: Class) -> Item {
 /// Catalogue of documented misuses; each adds one or two attributes to a (usually valid)
 /// item.  Every entry leads to a *different* message of validate.rs / attr.rs, so k
 /// injections put ~k keys into the `errors` container.
-pub const N_MISUSES: usize = 54;
+pub const N_MISUSES: usize = 55;
 
 pub fn inject_misuse(rng: &mut Rng, item: &mut Item, which: usize) -> &'static str {
     let cp0 = first_counterpart(item).unwrap_or_else(|| "EntityDto".to_string());
@@ -1128,6 +1128,13 @@ pub fn inject_misuse(rng: &mut Rng, item: &mut Item, which: usize) -> &'static s
                 }
             }
             "member:name-value-attrs"
+        },
+        // ---- a typing error in an instruction name: one character appended, replaced,
+        // dropped, doubled or swapped (what "did you mean" logic is written for; a keyword with
+        // a longer sibling -- ghost / ghosts -- makes the typo equidistant from both)
+        54 => {
+            typo_instruction(rng, item);
+            "typo:instruction-name"
         },
         // ---- allow_unknown: silences the 'misplaced / misnamed' class
         50 | 51 => {
@@ -1522,6 +1529,9 @@ pub fn generate(rng: &mut Rng, corpus: &Corpus, class: Class) -> Item {
             extend_a_list(rng, &mut item);
         }
     }
+    if item.raw.is_none() && rng.chance(1, 10) {
+        typo_instruction(rng, &mut item);
+    }
     item
 }
 
@@ -1627,6 +1637,73 @@ fn extend_a_list(rng: &mut Rng, item: &mut Item) {
     out.extend(b[insert_at..].iter());
     *attr = out;
     item.origin = format!("{}+list", item.origin);
+}
+
+/// One typing error in the instruction name of a random attribute of the item.
+pub fn typo_instruction(rng: &mut Rng, item: &mut Item) {
+    let n = item.n_attrs();
+    if n == 0 {
+        item.type_attrs.push("#[o2o(mapp(X))]".into());
+        return;
+    }
+    let pick = rng.below(n as u64) as usize;
+    let attr: &mut String = if pick < item.type_attrs.len() {
+        &mut item.type_attrs[pick]
+    } else {
+        let mut r = pick - item.type_attrs.len();
+        let mut found: Option<&mut String> = None;
+        for m in item.members.iter_mut() {
+            if r < m.attrs.len() {
+                found = Some(&mut m.attrs[r]);
+                break;
+            }
+            r -= m.attrs.len();
+        }
+        match found {
+            Some(a) => a,
+            None => return,
+        }
+    };
+    // the instruction name: the identifier after `#[`, or after `#[o2o(`
+    let start = if attr.starts_with("#[o2o(") { 6 } else if attr.starts_with("#[") { 2 } else { 0 };
+    let end = start + attr[start..].chars().take_while(|c| c.is_ascii_alphanumeric() || *c == '_').map(|c| c.len_utf8()).sum::<usize>();
+    if end <= start + 1 || !attr.ends_with(']') {
+        return;
+    }
+    let name: Vec<char> = attr[start..end].chars().collect();
+    let letter = (b'a' + rng.below(26) as u8) as char;
+    let mut t: Vec<char> = name.clone();
+    match rng.below(6) {
+        0 => t.push(letter),
+        1 => {
+            let l = t.len();
+            t[l - 1] = letter;
+        },
+        2 => {
+            t.pop();
+        },
+        3 => {
+            let k = rng.below(t.len() as u64) as usize;
+            t.insert(k, name[k]);
+        },
+        4 if t.len() >= 2 => {
+            let k = rng.below(t.len() as u64 - 1) as usize;
+            t.swap(k, k + 1);
+        },
+        _ => {
+            let k = rng.below(t.len() as u64) as usize;
+            t[k] = letter;
+        },
+    }
+    let typo: String = t.into_iter().collect();
+    attr.replace_range(start..end, &typo);
+    // (a bare attribute with an unknown name is rejected by rustc before the derive runs, and
+    // the expander's hints are for its own wrapper: use the wrapper)
+    if start == 2 {
+        let body = attr[2..attr.len() - 1].to_string();
+        *attr = format!("#[o2o({})]", body);
+    }
+    item.origin = format!("{}+typo", item.origin);
 }
 
 /// whole-word replacement (`from` not followed or preceded by an identifier character; a
